@@ -418,6 +418,20 @@ def root(a: int):
 """
 
 # closures handed out in a tuple / a list by a folded subroutine
+CLOSURE_SHAPES["closures-in-a-list"] = """
+@move{MDEC}
+def maker():
+    def first(a: int):
+        return ({L0}, a)
+    def second(a: int):
+        return ({L1}, a + 1)
+    return [first, second]
+
+@move{DEC}
+def root(a: int):
+    fs = maker()
+    return (fs[0](a), fs[1](a))
+"""
 CLOSURE_SHAPES["closures-in-a-tuple"] = """
 @move{MDEC}
 def maker():
